@@ -99,6 +99,38 @@ pub fn workload(tier: Tier) -> Vec<Work> {
             w.push(Work { space: "E6/stringz-escapes", prog, stack: false, layout: Layout::PLAIN });
         }
     }
+    // E7: label spellings next to the lexer's other token classes (hex-like, register-like,
+    // keyword-prefixed, digit-first): defined and used before and after, with each PC-relative kind
+    for name in label_names() {
+        // defined but never used: the label must not turn into a statement of its own
+        for stmt in [Stmt::Named(0x25, "halt"), Stmt::Add(1, 2, Src2::Reg(3)), Stmt::Fill(Lit::hex(0x1234)), Stmt::Ret] {
+            let mut prog = Program::default();
+            prog.push(None, Stmt::Not(1, 1));
+            prog.push(Some(name), stmt);
+            prog.push(None, Stmt::Named(0x25, "halt"));
+            w.push(Work { space: "E7/label-spellings", prog, stack: false, layout: Layout::PLAIN });
+        }
+        for (k, kind) in REF_KINDS.iter().enumerate() {
+            if *kind == RefKind::Call {
+                continue;
+            }
+            for fwd in [false, true] {
+                let mut prog = Program::default();
+                if fwd {
+                    prog.push(None, kind.stmt(name, k));
+                    prog.push(None, Stmt::Not(1, 1));
+                    prog.push(Some(name), Stmt::Named(0x25, "halt"));
+                } else {
+                    prog.push(Some(name), Stmt::Named(0x25, "halt"));
+                    prog.push(None, Stmt::Not(1, 1));
+                    prog.push(None, kind.stmt(name, k));
+                }
+                for lay in [Layout::PLAIN, Layout { colon: true, case: Case::Upper, ..Layout::PLAIN }] {
+                    w.push(Work { space: "E7/label-spellings", prog: prog.clone(), stack: false, layout: lay });
+                }
+            }
+        }
+    }
     // E5: layout product over the seeds
     let lays = layouts();
     for (prog, stack) in seeds() {
